@@ -400,6 +400,10 @@ fn ok_json() -> Value {
     json!({"k":"ok","o":-1,"oe":-1,"l":-1,"c":-1,"nexp":0,"msg":""})
 }
 
+pub fn none_json() -> Value {
+    json!({"k":"none","o":-1,"oe":-1,"l":-1,"c":-1,"nexp":0,"msg":""})
+}
+
 pub fn panic_json(msg: &str) -> Value {
     json!({"k":"panic","o":-1,"oe":-1,"l":-1,"c":-1,"nexp":0,"msg":msg})
 }
